@@ -7,14 +7,13 @@
 package dtls
 
 import (
+	"sync"
 	"bytes"
 	"context"
 	"crypto/hmac"
 	"encoding/binary"
 	"fmt"
 	"hash"
-	"sort"
-	"sync"
 	"testing"
 	"testing/synctest"
 	"time"
@@ -201,11 +200,768 @@ func c20ChainOK(w, r *Conn) (chain bool, agree bool, gens int) {
 	return chain, agree, gens
 }
 
-var (
-	_ = context.Background
-	_ = sort.Ints
-	_ sync.Mutex
-	_ = synctest.Wait
-	_ = time.Second
-	_ testing.T
-)
+// ---------------------------------------------------------------- crafted records
+
+// c20SealFuture seals an application record under the generation `ahead` steps after the sender's
+// current write generation (secrets derived with the harness's own Expand-Label), as a peer that
+// switched keys too early would.
+func c20SealFuture(sender *Conn, ahead int, seq uint64, payload []byte) ([]byte, int) {
+	st := c20State13(sender)
+	cur, ok := st.TrafficKeys.CurrentWrite()
+	if !ok {
+		panic("c20: no write generation")
+	}
+	cs, ok := st.CipherSuite.(ciphersuite.CipherSuiteTLS13)
+	if !ok {
+		panic("c20: no TLS 1.3 cipher suite")
+	}
+	secret := cur.Secret
+	for i := 0; i < ahead; i++ {
+		secret = c20ExpandLabel(cs.HashFunc(), secret, "traffic upd")
+	}
+	prot, err := cs.NewRecordProtection(secret)
+	if err != nil {
+		panic(err)
+	}
+	epoch := int(cur.Epoch) + ahead
+	ct, err := prot.Seal(recordlayer.UnifiedHeader{
+		EpochLow: uint8(epoch & 3), SequenceNumber: uint16(seq & 0xffff), SeqBit: true, LengthBit: true,
+	}, seq, protocol.ContentTypeApplicationData, payload)
+	if err != nil {
+		panic(err)
+	}
+	raw, err := ct.Marshal()
+	if err != nil {
+		panic(err)
+	}
+
+	return raw, epoch
+}
+
+// ---------------------------------------------------------------- the scripted run
+
+type c20Call struct {
+	side string
+	id   int
+	done chan error
+	seen bool
+}
+
+type c20Step struct {
+	Op     string   `json:"op"`   // uk | w | d | t | x
+	Side   string   `json:"side"` // caller (uk, w), destination (d, x), retransmitting side (t)
+	Req    bool     `json:"req"`
+	ID     int      `json:"id"`   // call id (uk) / payload number (w)
+	Rec    int      `json:"rec"`  // index into recs (d, x)
+	Sent   []int    `json:"sent"` // indices into recs emitted during the step
+	Read   [][2]int `json:"read"` // (0 client / 1 server, payload number)
+	Done   [][2]int `json:"done"` // (side, call id) UpdateKeys returned nil
+	Errs   []string `json:"errs"` // UpdateKeys / Write calls that returned an error
+	Epochs [4]int   `json:"epochs"`
+	T      int64    `json:"t_ms"`
+}
+
+type c20Cfg struct {
+	W     int      `json:"w"`
+	Base  [2]int   `json:"base"`
+	WSeq  [2]int   `json:"wseq"`
+	Pre   [2][]int `json:"pre"`
+	Suite string   `json:"suite"`
+}
+
+type c20Trace struct {
+	Kind    string    `json:"kind"`
+	Variant string    `json:"variant"`
+	Case    int       `json:"case"`
+	Cfg     c20Cfg    `json:"cfg"`
+	Recs    []c20Rec  `json:"recs"`
+	Steps   []c20Step `json:"steps"`
+	Chain   [2]bool   `json:"chain"`  // successor relation holds for every generation (client->server, server->client)
+	Agree   [2]bool   `json:"agree"`  // the receiver's read generation equals the sender's write generation for every committed epoch
+	Gens    [2]int    `json:"gens"`
+	Pending int       `json:"pending_calls"` // UpdateKeys calls that had not returned when the run ended
+	Note    string    `json:"note"`
+}
+
+type c20Sim struct {
+	t      *testing.T
+	lab    *vLab
+	nextDg int
+	tr     *c20Trace
+	raws   [][]byte
+	calls  []*c20Call
+	wcalls []*c20Call
+	nread  [2]int
+	start  time.Time
+}
+
+func c20SideIdx(name string) int {
+	if name == "client" {
+		return 0
+	}
+
+	return 1
+}
+
+var c20Sides = [2]string{"client", "server"} //nolint:gochecknoglobals
+
+func c20Configs(suite CipherSuiteID, w int) (*dtlsConfig, *dtlsConfig) {
+	ccfg, scfg := vCertPair()
+	for _, c := range []*dtlsConfig{ccfg, scfg} {
+		c.MinVersion = protocol.Version1_3
+		c.MaxVersion = protocol.Version1_3
+		if suite != 0 {
+			c.CipherSuites = []CipherSuiteID{suite}
+		}
+		if w > 0 {
+			c.ReplayProtectionWindow = w
+		}
+	}
+
+	return ccfg, scfg
+}
+
+func c20PayloadNum(b []byte) int {
+	n := -1
+	if len(b) >= 5 && b[0] == 'p' {
+		fmt.Sscanf(string(b[1:5]), "%d", &n)
+	}
+
+	return n
+}
+
+func c20Payload(n int) []byte { return []byte(fmt.Sprintf("p%04d-payload", n)) }
+
+// c20Start establishes a DTLS 1.3 connection over a perfect network, lets the server's
+// NewSessionTicket flight finish, and hands the network over to the script.
+func c20Start(t *testing.T, variant string, suite CipherSuiteID, w int) *c20Sim {
+	t.Helper()
+	ccfg, scfg := c20Configs(suite, w)
+	lab := newLab(t, ccfg, scfg)
+	lab.Pump.run(lab.bothDone, 200*time.Second)
+	if !lab.established() {
+		t.Fatalf("DTLS 1.3 handshake failed: client=%v server=%v", lab.Client.Err, lab.Server.Err)
+	}
+	lab.Pump.run(func() bool { return false }, 3*time.Second)
+	synctest.Wait()
+	sim := &c20Sim{t: t, lab: lab, tr: &c20Trace{Kind: "trace", Variant: variant}, start: time.Now()}
+	sim.nextDg = lab.Net.count()
+	eff := w
+	if eff <= 0 {
+		eff = defaultReplayProtectionWindow
+	}
+	sim.tr.Cfg.W = effectiveReplayProtectionWindow(eff)
+	for i, name := range c20Sides {
+		c := lab.peer(name).Conn
+		st := c20State13(c)
+		if st.LocalEpoch() != 3 || st.RemoteEpoch() != 3 {
+			t.Fatalf("%s: epochs %d/%d after establishment", name, st.LocalEpoch(), st.RemoteEpoch())
+		}
+		sim.tr.Cfg.Base[i] = st.HandshakeSendSequence
+		sim.tr.Cfg.Pre[i] = []int{}
+	}
+	if c20State13(lab.Client.Conn).HandshakeRecvSequence != sim.tr.Cfg.Base[1] ||
+		c20State13(lab.Server.Conn).HandshakeRecvSequence != sim.tr.Cfg.Base[0] {
+		t.Fatalf("handshake sequence numbers out of step after establishment")
+	}
+	for _, d := range lab.Net.since(0) {
+		r, ok := c20Open(lab.peer(d.From).Conn, d.Data)
+		if !ok || r.Epoch != 3 {
+			continue
+		}
+		i := c20SideIdx(d.From)
+		sim.tr.Cfg.WSeq[i]++
+		sim.tr.Cfg.Pre[1-i] = append(sim.tr.Cfg.Pre[1-i], int(r.Seq))
+	}
+	lab.Client.startReader()
+	lab.Server.startReader()
+	synctest.Wait()
+
+	return sim
+}
+
+func (s *c20Sim) epochs() [4]int {
+	a, b := c20State13(s.lab.Client.Conn), c20State13(s.lab.Server.Conn)
+
+	return [4]int{int(a.LocalEpoch()), int(a.RemoteEpoch()), int(b.LocalEpoch()), int(b.RemoteEpoch())}
+}
+
+// collect catalogues what happened since the previous step.
+func (s *c20Sim) collect(st *c20Step) {
+	synctest.Wait()
+	for _, d := range s.lab.Net.since(s.nextDg) {
+		s.nextDg = d.Idx + 1
+		r, ok := c20Open(s.lab.peer(d.From).Conn, d.Data)
+		r.From = d.From
+		r.Dg = d.Idx
+		if !ok {
+			st.Errs = append(st.Errs, fmt.Sprintf("datagram %d from %s cannot be opened with the sender's keys (%s)", d.Idx, d.From, r.Kind))
+		}
+		if r.Kind == "ku" || r.Kind == "nst" {
+			r.Msg -= s.tr.Cfg.Base[c20SideIdx(d.From)] - s.tr.Cfg.Base[c20SideIdx(d.From)] // absolute message_seq kept
+		}
+		s.tr.Recs = append(s.tr.Recs, r)
+		s.raws = append(s.raws, d.Data)
+		st.Sent = append(st.Sent, len(s.tr.Recs)-1)
+	}
+	for i, name := range c20Sides {
+		reads := s.lab.peer(name).reads()
+		for ; s.nread[i] < len(reads); s.nread[i]++ {
+			st.Read = append(st.Read, [2]int{i, c20PayloadNum(reads[s.nread[i]])})
+		}
+	}
+	for _, c := range s.calls {
+		if c.seen {
+			continue
+		}
+		select {
+		case err := <-c.done:
+			c.seen = true
+			if err == nil {
+				st.Done = append(st.Done, [2]int{c20SideIdx(c.side), c.id})
+			} else {
+				st.Errs = append(st.Errs, fmt.Sprintf("UpdateKeys %d at %s: %v", c.id, c.side, err))
+			}
+		default:
+		}
+	}
+	for _, c := range s.wcalls {
+		if c.seen {
+			continue
+		}
+		select {
+		case err := <-c.done:
+			c.seen = true
+			if err != nil {
+				st.Errs = append(st.Errs, fmt.Sprintf("Write %d at %s: %v", c.id, c.side, err))
+			}
+		default:
+		}
+	}
+	st.Epochs = s.epochs()
+	st.T = time.Since(s.start).Milliseconds()
+}
+
+func (s *c20Sim) push(st c20Step) *c20Step {
+	if st.Sent == nil {
+		st.Sent = []int{}
+	}
+	if st.Read == nil {
+		st.Read = [][2]int{}
+	}
+	if st.Done == nil {
+		st.Done = [][2]int{}
+	}
+	if st.Errs == nil {
+		st.Errs = []string{}
+	}
+	s.tr.Steps = append(s.tr.Steps, st)
+
+	return &s.tr.Steps[len(s.tr.Steps)-1]
+}
+
+func (s *c20Sim) opUpdate(side string, req bool) {
+	c := &c20Call{side: side, id: len(s.calls), done: make(chan error, 1)}
+	s.calls = append(s.calls, c)
+	conn := s.lab.peer(side).Conn
+	go func() { c.done <- conn.UpdateKeys(context.Background(), KeyUpdateOptions{RequestPeerUpdate: req}) }()
+	st := c20Step{Op: "uk", Side: side, Req: req, ID: c.id, Rec: -1}
+	s.collect(&st)
+	s.push(st)
+}
+
+func (s *c20Sim) opWrite(side string, n int) {
+	c := &c20Call{side: side, id: n, done: make(chan error, 1)}
+	s.wcalls = append(s.wcalls, c)
+	conn := s.lab.peer(side).Conn
+	go func() {
+		_, err := conn.Write(c20Payload(n))
+		c.done <- err
+	}()
+	st := c20Step{Op: "w", Side: side, ID: n, Rec: -1}
+	s.collect(&st)
+	s.push(st)
+}
+
+func (s *c20Sim) opDeliver(rec int) {
+	r := s.tr.Recs[rec]
+	to := s.lab.other(r.From).Name
+	s.lab.Net.deliver(to, r.From, s.raws[rec])
+	st := c20Step{Op: "d", Side: to, Rec: rec, ID: -1}
+	s.collect(&st)
+	s.push(st)
+}
+
+// opCraft delivers to `to` an application record sealed by the harness under the generation
+// `ahead` steps after the peer's current write generation.
+func (s *c20Sim) opCraft(to string, ahead int, seq uint64, n int) {
+	from := s.lab.other(to)
+	raw, epoch := c20SealFuture(from.Conn, ahead, seq, c20Payload(n))
+	s.tr.Recs = append(s.tr.Recs, c20Rec{
+		From: from.Name, Dg: -1, ELow: epoch & 3, Epoch: epoch, Seq: seq, Kind: "app",
+		Msg: -1, Payload: string(c20Payload(n)),
+	})
+	s.raws = append(s.raws, raw)
+	rec := len(s.tr.Recs) - 1
+	s.lab.Net.deliver(to, from.Name, raw)
+	st := c20Step{Op: "x", Side: to, Rec: rec, ID: n}
+	s.collect(&st)
+	s.push(st)
+}
+
+// opTime lets `d` of virtual time pass; every retransmission becomes its own timer step.
+func (s *c20Sim) opTime(d time.Duration) int {
+	time.Sleep(d)
+	st := c20Step{Op: "t", Rec: -1, ID: -1}
+	s.collect(&st)
+	n := len(st.Sent)
+	if n == 0 && len(st.Read) == 0 && len(st.Done) == 0 && len(st.Errs) == 0 {
+		return 0
+	}
+	if n <= 1 {
+		if n == 1 {
+			st.Side = s.tr.Recs[st.Sent[0]].From
+		}
+		s.push(st)
+
+		return n
+	}
+	for i, idx := range st.Sent {
+		one := c20Step{Op: "t", Side: s.tr.Recs[idx].From, Rec: -1, ID: -1, Sent: []int{idx}, Epochs: st.Epochs, T: st.T}
+		if i == n-1 {
+			one.Read, one.Done, one.Errs = st.Read, st.Done, st.Errs
+		}
+		s.push(one)
+	}
+
+	return n
+}
+
+func (s *c20Sim) pendingCalls() int {
+	n := 0
+	for _, c := range s.calls {
+		if !c.seen {
+			n++
+		}
+	}
+
+	return n
+}
+
+func (s *c20Sim) finish(out *vOut) {
+	cl, sv := s.lab.Client.Conn, s.lab.Server.Conn
+	s.tr.Chain[0], s.tr.Agree[0], s.tr.Gens[0] = c20ChainOK(cl, sv)
+	s.tr.Chain[1], s.tr.Agree[1], s.tr.Gens[1] = c20ChainOK(sv, cl)
+	s.tr.Pending = s.pendingCalls()
+	out.emit(s.tr)
+	s.lab.close()
+}
+
+// ---------------------------------------------------------------- generated scripts
+
+type c20Gen struct {
+	sim      *c20Sim
+	rng      *vRand
+	inflight []int // catalogued, not yet delivered (in emission order)
+	seenRecs int
+	old      []int // delivered or dropped earlier: candidates for duplication / late arrival
+	held     []int // kept back for the end of the run
+	nextPay  int
+	updates  int
+}
+
+func (g *c20Gen) sync() {
+	for ; g.seenRecs < len(g.sim.tr.Recs); g.seenRecs++ {
+		if g.sim.tr.Recs[g.seenRecs].Dg >= 0 {
+			g.inflight = append(g.inflight, g.seenRecs)
+		}
+	}
+}
+
+func (g *c20Gen) take(i int) int {
+	r := g.inflight[i]
+	g.inflight = append(g.inflight[:i], g.inflight[i+1:]...)
+
+	return r
+}
+
+// one random network/application move; pDrop etc. are percentages for control records.
+func (g *c20Gen) move(maxUpdates, lossPct int) {
+	s, rng := g.sim, g.rng
+	g.sync()
+	roll := rng.intn(100)
+	switch {
+	case roll < 12 && g.updates < maxUpdates:
+		g.updates++
+		s.opUpdate(c20Sides[rng.intn(2)], rng.chance(40))
+	case roll < 30:
+		g.nextPay++
+		s.opWrite(c20Sides[rng.intn(2)], g.nextPay)
+	case roll < 38:
+		s.opTime([]time.Duration{time.Second, 2 * time.Second, 5 * time.Second}[rng.intn(3)])
+	case roll < 46 && len(g.old) > 0:
+		s.opDeliver(g.old[rng.intn(len(g.old))]) // duplicate / late copy
+	case len(g.inflight) > 0:
+		i := 0
+		if rng.chance(30) {
+			i = rng.intn(len(g.inflight)) // reorder
+		}
+		r := g.take(i)
+		kind := s.tr.Recs[r].Kind
+		switch {
+		case rng.chance(lossPct) && (kind == "ku" || kind == "ack" || rng.chance(30)):
+			g.old = append(g.old, r) // lost for now (may still arrive late)
+		case kind == "app" && rng.chance(15):
+			g.held = append(g.held, r)
+		default:
+			s.opDeliver(r)
+			g.old = append(g.old, r)
+		}
+	default:
+		g.nextPay++
+		s.opWrite(c20Sides[rng.intn(2)], g.nextPay)
+	}
+	g.sync()
+}
+
+// settle: perfect network and enough time until every UpdateKeys call returned.
+func (g *c20Gen) settle() {
+	s := g.sim
+	for round := 0; round < 40; round++ {
+		g.sync()
+		for len(g.inflight) > 0 {
+			s.opDeliver(g.take(0))
+			g.sync()
+		}
+		if s.pendingCalls() == 0 && s.opTime(61*time.Second) == 0 {
+			g.sync()
+			if len(g.inflight) == 0 {
+				break
+			}
+		} else if s.pendingCalls() != 0 {
+			s.opTime(61 * time.Second)
+		}
+	}
+}
+
+func c20Suite(i int) (CipherSuiteID, string) {
+	switch i % 3 {
+	case 0:
+		return TLS_AES_128_GCM_SHA256, "aes128gcm"
+	case 1:
+		return TLS_AES_256_GCM_SHA384, "aes256gcm"
+	default:
+		return TLS_CHACHA20_POLY1305_SHA256, "chacha20"
+	}
+}
+
+// perfect delivery of everything in flight (no timers)
+func (g *c20Gen) flush() {
+	g.sync()
+	for len(g.inflight) > 0 {
+		r := g.take(0)
+		g.sim.opDeliver(r)
+		g.old = append(g.old, r)
+		g.sync()
+	}
+}
+
+// write one payload and return the index of the record that carries it (kept off the network)
+func (g *c20Gen) writeHeld(side string) int {
+	g.flush()
+	g.nextPay++
+	g.sim.opWrite(side, g.nextPay)
+	g.sync()
+	if len(g.inflight) == 0 {
+		return -1
+	}
+
+	return g.take(len(g.inflight) - 1)
+}
+
+// scenarioRetained: records of every epoch are kept back and arrive after 1..k further updates of
+// their sender; a record that fell out of the replay window of its epoch arrives as well.
+func (g *c20Gen) scenarioRetained() {
+	s, rng := g.sim, g.rng
+	var held []int
+	rounds := 2 + rng.intn(5)
+	for k := 0; k < rounds; k++ {
+		side := c20Sides[rng.intn(2)]
+		for j := 0; j < 1+rng.intn(2); j++ {
+			if r := g.writeHeld(c20Sides[rng.intn(2)]); r >= 0 {
+				held = append(held, r)
+			}
+		}
+		if rng.chance(30) {
+			// 64+ newer records of the same epoch make the kept one too old for the window
+			if r := g.writeHeld(side); r >= 0 {
+				held = append(held, r)
+			}
+			for j := 0; j < s.tr.Cfg.W+rng.intn(4); j++ {
+				g.nextPay++
+				s.opWrite(side, g.nextPay)
+			}
+			g.flush()
+		}
+		s.opUpdate(side, rng.chance(50))
+		g.flush()
+		if rng.chance(40) && len(held) > 0 {
+			i := rng.intn(len(held))
+			s.opDeliver(held[i])
+			g.old = append(g.old, held[i])
+			held = append(held[:i], held[i+1:]...)
+		}
+	}
+	g.settle()
+	for _, r := range held {
+		s.opDeliver(r)
+		if rng.chance(30) {
+			s.opDeliver(r)
+		}
+	}
+}
+
+// scenarioEarly: application records sealed under generations the receiver has not authorised yet
+// (ahead = 1, 2, 3), before and after the epoch bits start to alias retained generations, more
+// than the parking capacity, then the KeyUpdate that authorises the next epoch.
+func (g *c20Gen) scenarioEarly() {
+	s, rng := g.sim, g.rng
+	rounds := 2 + rng.intn(5)
+	for k := 0; k < rounds; k++ {
+		from := c20Sides[rng.intn(2)]
+		to := s.lab.other(from).Name
+		n := 1 + rng.intn(4)
+		if rng.chance(12) {
+			n = 100 + rng.intn(6)
+		}
+		for j := 0; j < n; j++ {
+			g.nextPay++
+			ahead := 1
+			if rng.chance(25) {
+				ahead = 2 + rng.intn(2)
+			}
+			s.opCraft(to, ahead, uint64(rng.intn(8)), 5000+g.nextPay)
+		}
+		if rng.chance(30) {
+			g.nextPay++
+			s.opWrite(from, g.nextPay)
+		}
+		s.opUpdate(from, rng.chance(30))
+		if rng.chance(50) {
+			g.nextPay++
+			s.opCraft(to, 1, uint64(rng.intn(8)), 5000+g.nextPay)
+		}
+		g.flush()
+		if rng.chance(50) {
+			g.nextPay++
+			s.opWrite(from, g.nextPay)
+			g.flush()
+		}
+	}
+	g.settle()
+}
+
+// TestVerifC20Trace: datagram-level deterministic runs (one operation at a time, synctest.Wait in
+// between); every step's observable output is compared with the model by checks/c20.py.
+func TestVerifC20Trace(t *testing.T) {
+	out := newVOut(t)
+	n := 60
+	if vIsThorough() {
+		n = 2000
+	}
+	for i := 0; i < n; i++ {
+		i := i
+		vBubble(t, func(t *testing.T) {
+			rng := newVRand(vSeed()*1000003 + uint64(i))
+			suite, sname := c20Suite(i)
+			variant := []string{"random", "random", "retained", "early"}[i%4]
+			sim := c20Start(t, variant, suite, 0)
+			sim.tr.Case = i
+			sim.tr.Cfg.Suite = sname
+			g := &c20Gen{sim: sim, rng: rng}
+			switch variant {
+			case "retained":
+				g.scenarioRetained()
+			case "early":
+				g.scenarioEarly()
+			default:
+				steps := 25 + rng.intn(60)
+				loss := []int{0, 15, 35, 60}[rng.intn(4)]
+				maxU := 1 + rng.intn(6)
+				for k := 0; k < steps; k++ {
+					g.move(maxU, loss)
+				}
+				g.settle()
+				// late arrivals: records kept back since before the later updates
+				for _, r := range g.held {
+					sim.opDeliver(r)
+				}
+				for k := 0; k < 3 && len(g.old) > 0; k++ {
+					sim.opDeliver(g.old[rng.intn(len(g.old))])
+				}
+			}
+			sim.finish(out)
+		})
+	}
+}
+
+// ---------------------------------------------------------------- concurrent leg (monitors only)
+
+type c20ConcCall struct {
+	Side int    `json:"side"`
+	Req  bool   `json:"req"`
+	Err  string `json:"err"`
+	T    int64  `json:"t_ms"` // virtual time of the return
+	Seq  int    `json:"order"`
+}
+
+type c20ConcDelivery struct {
+	T   int64 `json:"t_ms"`
+	Rec int   `json:"rec"`
+}
+
+type c20Conc struct {
+	Kind      string            `json:"kind"`
+	Case      int               `json:"case"`
+	Writers   int               `json:"writers"`
+	Loss      int               `json:"loss"`
+	Recs      []c20Rec          `json:"recs"`      // every post-establishment record in emission order
+	Delivered []c20ConcDelivery `json:"delivered"` // every hand-over to the destination, in order
+	Written   [][2]int          `json:"written"`   // (side, payload) for every Write that returned nil
+	WriteErrs []string          `json:"write_errs"`
+	Reads     [][2]int          `json:"reads"`
+	Calls     []c20ConcCall     `json:"calls"`
+	Unreturned int              `json:"unreturned"`
+	Epochs    [4]int            `json:"epochs"`
+	Chain     [2]bool           `json:"chain"`
+	Agree     [2]bool           `json:"agree"`
+	Unopened  int               `json:"unopened"`
+}
+
+// TestVerifC20Conc: UpdateKeys on both sides racing with 1-3 writer goroutines per side under a
+// lossy, duplicating, reordering network; then the network heals. Only the property's own
+// statements are evaluated on these runs (goroutine scheduling is not replayed in the model).
+func TestVerifC20Conc(t *testing.T) {
+	out := newVOut(t)
+	n := 12
+	if vIsThorough() {
+		n = 400
+	}
+	for i := 0; i < n; i++ {
+		i := i
+		vBubble(t, func(t *testing.T) {
+			rng := newVRand(vSeed()*7919 + uint64(i) + 17)
+			suite, _ := c20Suite(i)
+			sim := c20Start(t, "conc", suite, 0)
+			lab := sim.lab
+			res := &c20Conc{Kind: "conc", Case: i, Writers: 1 + rng.intn(3), Loss: []int{0, 10, 30, 50}[rng.intn(4)]}
+			start := time.Now()
+			var mu sync.Mutex
+			healed := false
+			dgRec := map[int]int{}
+			pump := &vPump{net: lab.Net, next: lab.Net.count()}
+			pump.Policy = func(d vDatagram) (vAction, int) {
+				r, ok := c20Open(lab.peer(d.From).Conn, d.Data)
+				r.From, r.Dg = d.From, d.Idx
+				if !ok {
+					res.Unopened++
+				}
+				res.Recs = append(res.Recs, r)
+				dgRec[d.Idx] = len(res.Recs) - 1
+				if healed {
+					return vPass, 0
+				}
+				ctl := r.Kind == "ku" || r.Kind == "ack"
+				roll := rng.intn(100)
+				switch {
+				case ctl && roll < res.Loss, !ctl && roll < res.Loss/3:
+					return vDrop, 0
+				case roll < res.Loss+12:
+					return vDup, 0
+				case roll < res.Loss+30:
+					return vHold, 1 + rng.intn(12)
+				default:
+					return vPass, 0
+				}
+			}
+			pump.OnDeliver = func(d vDatagram) {
+				res.Delivered = append(res.Delivered, c20ConcDelivery{T: time.Since(start).Milliseconds(), Rec: dgRec[d.Idx]})
+			}
+			var wg sync.WaitGroup
+			order := 0
+			for si, name := range c20Sides {
+				conn := lab.peer(name).Conn
+				for w := 0; w < res.Writers; w++ {
+					wg.Add(1)
+					seed := rng.u64()
+					go func(si, w int) {
+						defer wg.Done()
+						r := newVRand(seed)
+						for k := 0; k < 12; k++ {
+							time.Sleep(time.Duration(r.intn(400)) * time.Millisecond)
+							n := si*4000 + w*1000 + k
+							_, err := conn.Write(c20Payload(n))
+							mu.Lock()
+							if err == nil {
+								res.Written = append(res.Written, [2]int{si, n})
+							} else {
+								res.WriteErrs = append(res.WriteErrs, err.Error())
+							}
+							mu.Unlock()
+						}
+					}(si, w)
+				}
+				wg.Add(1)
+				seed := rng.u64()
+				calls := 1 + rng.intn(4)
+				go func(si int) {
+					defer wg.Done()
+					r := newVRand(seed)
+					for k := 0; k < calls; k++ {
+						time.Sleep(time.Duration(r.intn(1500)) * time.Millisecond)
+						req := r.chance(40)
+						err := conn.UpdateKeys(context.Background(), KeyUpdateOptions{RequestPeerUpdate: req})
+						mu.Lock()
+						res.Calls = append(res.Calls, c20ConcCall{
+							Side: si, Req: req, Err: vErrString(err), T: time.Since(start).Milliseconds(), Seq: order,
+						})
+						order++
+						mu.Unlock()
+					}
+				}(si)
+				res.Unreturned += calls
+			}
+			finished := make(chan struct{})
+			go func() { wg.Wait(); close(finished) }()
+			isDone := func() bool {
+				select {
+				case <-finished:
+					return true
+				default:
+					return false
+				}
+			}
+			// lossy phase (bounded), then the network heals and everything left is delivered
+			pump.run(isDone, 40*time.Second)
+			healed = true
+			pump.run(isDone, 3000*time.Second)
+			pump.run(func() bool { return false }, 130*time.Second)
+			synctest.Wait()
+			mu.Lock()
+			res.Unreturned -= len(res.Calls)
+			mu.Unlock()
+			for si, name := range c20Sides {
+				for _, b := range lab.peer(name).reads() {
+					res.Reads = append(res.Reads, [2]int{si, c20PayloadNum(b)})
+				}
+			}
+			res.Epochs = sim.epochs()
+			var g0, g1 int
+			res.Chain[0], res.Agree[0], g0 = c20ChainOK(lab.Client.Conn, lab.Server.Conn)
+			res.Chain[1], res.Agree[1], g1 = c20ChainOK(lab.Server.Conn, lab.Client.Conn)
+			_, _ = g0, g1
+			out.emit(res)
+			lab.close()
+		})
+	}
+}
